@@ -837,3 +837,278 @@ def eq_ord_lemmas(F, rep, tystr):
                         return
                 rep.holds("L-eqord", okey, "%s ⇔ string comparison (%s): compares exactly the storage integers" % (meth, order))
             guarded(rep, "L-eqord", okey, meth, f)
+
+
+# --------------------------------------------------------------------------- DnaString lemmas (C13.1, C14.2, C14.3, C14.6)
+
+DS = "dna_string::DnaString"
+
+
+class DnaT:
+    """abstract DnaString values: base i lives in word i/32, bit pair (63-2(i%32), 62-2(i%32))"""
+
+    def __init__(self, F):
+        self.F = F
+        a = F.adts.get(DS)
+        if not a:
+            raise Unsupported("anchor-missing: %s" % DS)
+        self.names = [f["name"] for f in a["variants"][0]["fields"]]
+        if sorted(self.names) != ["len", "storage"]:
+            raise Unsupported("anchor-missing: DnaString fields are %s" % self.names)
+
+    def words(self, src, n, nsym=None):
+        """canonical storage of a length-n string: bases < nsym symbolic, padding zero"""
+        nsym = n if nsym is None else nsym
+        nw = (n + 31) // 32
+        ws = [[ZERO] * 64 for _ in range(nw)]
+        for i in range(nsym):
+            w, hi, lo = i // 32, 63 - 2 * (i % 32), 62 - 2 * (i % 32)
+            ws[w][hi], ws[w][lo] = var(src, 2 * i + 1), var(src, 2 * i)
+        return ws
+
+    def mk(self, ws, n):
+        vals = {"storage": VecV([Int(64, False, bits=w) for w in ws]), "len": usize(n)}
+        return Adt(DS, 0, [vals[k] for k in self.names])
+
+    def sym(self, src, n):
+        return self.mk(self.words(src, n), n)
+
+    def parts(self, v):
+        if not (isinstance(v, Adt) and v.name == DS):
+            raise Unsupported("not a DnaString: %r" % (v,))
+        d = {k: v.fields[i] for i, k in enumerate(self.names)}
+        return d["storage"], d["len"]
+
+
+def expect_dna(rep, rule, key, dt, got, spec_words, spec_len, desc):
+    rep.evaluations += 1
+    try:
+        st, ln = dt.parts(got)
+    except Unsupported as e:
+        rep.inconclusive(rule, key, "%s: %s" % (desc, e))
+        return False
+    if not (isinstance(ln, Int) and ln.is_conc()):
+        rep.inconclusive(rule, key, "%s: length is %r" % (desc, ln))
+        return False
+    if ln.val != spec_len:
+        rep.violated(rule, key, "%s: length is %d, specified %d" % (desc, ln.val, spec_len), witness={"kind": "len", "got": ln.val, "spec": spec_len})
+        return False
+    if not isinstance(st, VecV):
+        rep.inconclusive(rule, key, "%s: storage is %r" % (desc, st))
+        return False
+    if len(st.elems) != len(spec_words):
+        rep.violated(rule, key, "%s: %d storage words for %d bases, the representation invariant needs ceil(len/32) = %d (equality, order and hash "
+                     "compare the word vector)" % (desc, len(st.elems), spec_len, len(spec_words)),
+                     witness={"kind": "blocks", "got": len(st.elems), "spec": len(spec_words)})
+        return False
+    for wi, (g, sp) in enumerate(zip(st.elems, spec_words)):
+        gb = g.getbits() if isinstance(g, Int) else None
+        if gb is None:
+            rep.inconclusive(rule, key, "%s: word %d is %r" % (desc, wi, g))
+            return False
+        for i in range(64):
+            if gb[i] is TOP:
+                rep.inconclusive(rule, key, "%s: word %d bit %d unknown" % (desc, wi, i))
+                return False
+            if gb[i] != sp[i]:
+                base = wi * 32 + (63 - i) // 2
+                rep.violated(rule, key, "%s: word %d bit %d (base %d) is %s, specified %s" % (desc, wi, i, base, bv.t_str(gb[i]), bv.t_str(sp[i])),
+                             witness={"kind": "bit", "word": wi, "bit": i, "got": bv.t_str(gb[i]), "spec": bv.t_str(sp[i])})
+                return False
+    rep.holds(rule, key, desc)
+    return True
+
+
+def byte_seq(src, m, start=0):
+    """m in-range base bytes b_start.. as u8 values (precondition: < 4)"""
+    return [Int(8, False, bits=[var(src, 2 * (start + j)), var(src, 2 * (start + j) + 1)] + [ZERO] * 6) for j in range(m)]
+
+
+def first_inst(F, prefix):
+    ks = sorted(k for k in F.insts if k.startswith(prefix))
+    if not ks:
+        raise KeyError(prefix + "…")
+    return ks[0]
+
+
+def dnastring_lemmas(F, rep, which=None, maxn=70, ktypes=None):
+    from .models import IterV
+
+    def want(x):
+        return which is None or x in which
+    try:
+        dt = DnaT(F)
+    except Unsupported as e:
+        rep.violated("L-dna", "DnaString", str(e), witness={"kind": "anchor-missing"})
+        return
+
+    def spec_after(n0, added_src, m):
+        """words of s0[0..n0) followed by m new bases from added_src"""
+        n = n0 + m
+        ws = dt.words("s", n, n0)
+        for j in range(m):
+            i = n0 + j
+            w, hi, lo = i // 32, 63 - 2 * (i % 32), 62 - 2 * (i % 32)
+            ws[w][hi], ws[w][lo] = var(added_src, 2 * j + 1), var(added_src, 2 * j)
+        return ws
+
+    if want("new"):
+        for nm in ("new", "with_capacity"):
+            def f(nm=nm):
+                args = [] if nm == "new" else [usize(77)]
+                r, _ = run_inst(F, "dna_string::DnaString::" + nm, args)
+                expect_dna(rep, "L-dna-new", nm, dt, r, [], 0, "%s() is the empty string with no storage words" % nm)
+            guarded(rep, "L-dna-new", nm, nm, f)
+        for n in range(0, maxn + 1):
+            def f(n=n):
+                r, _ = run_inst(F, "dna_string::DnaString::blank", [usize(n)])
+                expect_dna(rep, "L-dna-new", "blank/n=%d" % n, dt, r, dt.words("s", n, 0), n, "blank(%d) is %d A's in ceil(n/32) zero words" % (n, n))
+            guarded(rep, "L-dna-new", "blank/n=%d" % n, "blank", f)
+
+        def fclear():
+            cell = Cell(dt.sym("s", 40), "self")
+            run_inst(F, "dna_string::DnaString::clear", [Ref(cell)])
+            expect_dna(rep, "L-dna-new", "clear", dt, cell.v, [], 0, "clear() leaves the empty string")
+        guarded(rep, "L-dna-new", "clear", "clear", fclear)
+
+    if want("get"):
+        n = 70
+        for i in range(n):
+            def f(i=i):
+                r, _ = run_inst(F, "<dna_string::DnaString as Mer>::get", [Ref(Cell(dt.sym("s", n), "self")), usize(i)])
+                expect_bits(rep, "L-dna-get", "pos=%d" % i, r, [var("s", 2 * i), var("s", 2 * i + 1)] + [ZERO] * 6, "get(%d) returns base %d" % (i, i))
+            guarded(rep, "L-dna-get", "pos=%d" % i, "get", f)
+
+            def g(i=i):
+                cell = Cell(dt.sym("s", n), "self")
+                v = Int(8, False, bits=[var("v", j) for j in range(8)])
+                run_inst(F, "<dna_string::DnaString as Mer>::set_mut", [Ref(cell), usize(i), v])
+                ws = dt.words("s", n)
+                w, hi, lo = i // 32, 63 - 2 * (i % 32), 62 - 2 * (i % 32)
+                ws[w][hi], ws[w][lo] = var("v", 1), var("v", 0)
+                expect_dna(rep, "L-dna-set", "pos=%d" % i, dt, cell.v, ws, n, "set_mut(%d, v) writes exactly base %d (value masked to two bits)" % (i, i))
+            guarded(rep, "L-dna-set", "pos=%d" % i, "set_mut", g)
+
+    if want("push"):
+        for n0 in range(0, 67):
+            def f(n0=n0):
+                cell = Cell(dt.sym("s", n0), "self")
+                v = Int(8, False, bits=[var("a", j) for j in range(8)])
+                run_inst(F, "dna_string::DnaString::push", [Ref(cell), v])
+                expect_dna(rep, "L-dna-push", "len=%d" % n0, dt, cell.v, spec_after(n0, "a", 1), n0 + 1,
+                           "push on a length-%d string appends exactly one base (low two bits of the value) and keeps ceil(len/32) words" % n0)
+            guarded(rep, "L-dna-push", "len=%d" % n0, "push", f)
+
+    if want("extend"):
+        def ext_key():
+            return first_inst(F, "dna_string::DnaString::extend::<std::iter::Cloned<")
+        for n0 in (0, 1, 31, 32, 33):
+            for m in range(0, maxn + 1):
+                def f(n0=n0, m=m):
+                    cell = Cell(dt.sym("s", n0), "self")
+                    src = Ref(Cell(Arr(byte_seq("a", m)), "bytes"))
+                    itv = IterV("cloned", (IterV("slice", (src, 0, m)),))
+                    run_inst(F, ext_key(), [Ref(cell), itv])
+                    expect_dna(rep, "L-dna-extend", "len=%d/m=%d" % (n0, m), dt, cell.v, spec_after(n0, "a", m), n0 + m,
+                               "extend of a length-%d string by %d bases appends exactly those bases in order" % (n0, m))
+                guarded(rep, "L-dna-extend", "len=%d/m=%d" % (n0, m), "extend", f)
+        for m in range(0, maxn + 1):
+            def f(m=m):
+                src = Ref(Cell(Arr(byte_seq("a", m)), "bytes"))
+                r, _ = run_inst(F, "dna_string::DnaString::from_bytes", [src])
+                expect_dna(rep, "L-dna-extend", "from_bytes/m=%d" % m, dt, r, spec_after(0, "a", m), m, "from_bytes of %d bases" % m)
+            guarded(rep, "L-dna-extend", "from_bytes/m=%d" % m, "from_bytes", f)
+
+    if want("rc"):
+        for n in list(range(0, 40)) + [63, 64, 65]:
+            def f(n=n):
+                r, _ = run_inst(F, "<dna_string::DnaString as Mer>::rc", [Ref(Cell(dt.sym("s", n), "self"))])
+                ws = dt.words("s", n, 0)
+                for j in range(n):
+                    srci = n - 1 - j
+                    w, hi, lo = j // 32, 63 - 2 * (j % 32), 62 - 2 * (j % 32)
+                    ws[w][hi], ws[w][lo] = t_not(var("s", 2 * srci + 1)), t_not(var("s", 2 * srci))
+                expect_dna(rep, "L-dna-rc", "len=%d" % n, dt, r, ws, n, "rc() of a length-%d string: base j = complement of base n-1-j" % n)
+            guarded(rep, "L-dna-rc", "len=%d" % n, "rc", f)
+
+            def g(n=n):
+                r, _ = run_inst(F, "dna_string::DnaString::reverse", [Ref(Cell(dt.sym("s", n), "self"))])
+                ws = dt.words("s", n, 0)
+                for j in range(n):
+                    srci = n - 1 - j
+                    w, hi, lo = j // 32, 63 - 2 * (j % 32), 62 - 2 * (j % 32)
+                    ws[w][hi], ws[w][lo] = var("s", 2 * srci + 1), var("s", 2 * srci)
+                expect_dna(rep, "L-dna-rc", "reverse/len=%d" % n, dt, r, ws, n, "reverse() of a length-%d string" % n)
+            guarded(rep, "L-dna-rc", "reverse/len=%d" % n, "reverse", g)
+
+    if want("render"):
+        for n in (0, 1, 31, 32, 33, 64):
+            def f(n=n):
+                r, _ = run_inst(F, "dna_string::DnaString::to_bytes", [Ref(Cell(dt.sym("s", n), "self"))])
+                rep.evaluations += 1
+                ok = isinstance(r, VecV) and len(r.elems) == n and all(
+                    isinstance(e, Int) and list(e.getbits()) == [var("s", 2 * i), var("s", 2 * i + 1)] + [ZERO] * 6 for i, e in enumerate(r.elems))
+                if ok:
+                    rep.holds("L-dna-render", "to_bytes/len=%d" % n, "to_bytes() lists the %d bases in order" % n)
+                else:
+                    rep.violated("L-dna-render", "to_bytes/len=%d" % n, "to_bytes() of a length-%d string is %r" % (n, r))
+            guarded(rep, "L-dna-render", "to_bytes/len=%d" % n, "to_bytes", f)
+
+    if want("ndiffs"):
+        for n in (0, 1, 32, 33, 64, 70):
+            def f(n=n):
+                a, b = dt.sym("a", n), dt.sym("b", n)
+                r, _ = run_inst(F, "dna_string::ndiffs", [Ref(Cell(a)), Ref(Cell(b))])
+                spec = []
+                for i in range(n):
+                    spec.append(t_or(t_xor(var("a", 2 * i + 1), var("b", 2 * i + 1)), t_xor(var("a", 2 * i), var("b", 2 * i))))
+                expect_popsum(rep, "L-dna-ndiffs", "len=%d" % n, r, spec, "ndiffs counts exactly the positions where two length-%d strings differ" % n)
+            guarded(rep, "L-dna-ndiffs", "len=%d" % n, "ndiffs", f)
+
+    if want("get_kmer"):
+        nbases = 160
+        kts = ktypes if ktypes is not None else [k["ty"] for k in F.kmer_types]
+        for kty in kts:
+            try:
+                kt = KType(F, kty)
+                kt.K = kmer_k(F, kt)
+            except Exception:
+                continue
+            K = kt.K
+            for pos in range(0, 70):
+                def f(pos=pos, kt=kt, K=K, kty=kty):
+                    key = "<dna_string::DnaString as Vmer>::get_kmer::<%s>" % kty
+                    r, _ = run_inst(F, key, [Ref(Cell(dt.sym("s", nbases), "self")), usize(pos)])
+                    spec = [ZERO] * kt.W
+                    for j in range(K):
+                        hi, lo = kt.lane_bits(j)
+                        spec[hi], spec[lo] = var("s", 2 * (pos + j) + 1), var("s", 2 * (pos + j))
+                    expect_bits(rep, "L-dna-getkmer", "%s/pos=%d" % (kty, pos), kt.storage_of(r), spec,
+                                "DnaString::get_kmer::<%s>(%d) = bases %d..%d (block walk over up to %d words)" % (kty, pos, pos, pos + K, (pos % 32 + K + 31) // 32))
+                guarded(rep, "L-dna-getkmer", "%s/pos=%d" % (kty, pos), "get_kmer", f)
+
+
+def expect_popsum(rep, rule, key, got, spec_terms, desc):
+    """a sum of population counts (ndiffs adds one per word): collect the counted terms of the summands"""
+    rep.evaluations += 1
+    terms = None
+    if isinstance(got, Int) and got.is_conc():
+        terms = [] if got.val == 0 else None
+        if terms is None:
+            rep.violated(rule, key, "%s: result is the constant %d" % (desc, got.val))
+            return
+    elif isinstance(got, Opaque) and "pop" in got.info:
+        terms = got.info["pop"]
+    elif isinstance(got, Int) and got.tags and any(t.startswith("popsum:") for t in got.tags):
+        terms = None
+    if terms is None:
+        rep.inconclusive(rule, key, "%s: result %r is not a recognisable sum of population counts" % (desc, got))
+        return
+    spec_terms = [t for t in spec_terms if not (t is not TOP and len(t) == 0)]
+    a = sorted(bv.t_str(t) for t in terms)
+    b = sorted(bv.t_str(t) for t in spec_terms)
+    if a == b:
+        rep.holds(rule, key, desc)
+    else:
+        rep.violated(rule, key, "%s: counted terms differ (extra %s, missing %s)" % (desc, [x for x in a if x not in b][:2], [x for x in b if x not in a][:2]),
+                     witness={"kind": "bit", "n_got": len(a), "n_spec": len(b)})
